@@ -244,6 +244,9 @@ Merged(cs, g, k) ==
                !.g[g].past  = TakeLast(Append(gs.past, gs.chain), MaxPast),
                !.g[g].sentH = 0, !.g[g].sentA = 0]
 
+\* the group data of g's MLS state carries a nostr id that another group's stored record already uses
+NidCollides(cs, g) == \E h \in Groups \ {g} : cs.g[h].rec.st # "none" /\ cs.g[h].rec.data.nid = MlsState(cs, g).nid
+
 \* post-merge bookkeeping of process_commit / own-commit echo
 AfterMerge(cs0, g, e, oldRecEpoch, c, isSelfUpd) ==
     LET k == cs0.g[g].chain[Len(cs0.g[g].chain)] IN         \* the commit just merged
@@ -255,7 +258,11 @@ AfterMerge(cs0, g, e, oldRecEpoch, c, isSelfUpd) ==
     ELSE LET cs1 == [cs0 EXCEPT !.g[g] = PutSecret(@, Cur(cs0, g), cs0.g[g].chain)]
              cs2 == Sync(cs1, g)
              cs3 == IF isSelfUpd THEN [cs2 EXCEPT !.g[g].rec.su = FALSE] ELSE cs2
-         IN  Ret(SetProc(cs3, e, "processed_commit", g, Cur(cs3, g)), "Commit")
+         IN  \* finding SyncFailsAfterMerge: the new group data cannot be stored (its nostr id belongs to another group this
+             \* client holds): the commit is already merged, the record stays behind and the call is refused
+             IF NidCollides(cs1, g)
+             THEN Ret([RecordFailure(cs1, e, g, oldRecEpoch) EXCEPT !.syncfail = @ \cup {g}], "Unprocessable")
+             ELSE Ret(SetProc(cs3, e, "processed_commit", g, Cur(cs3, g)), "Commit")
 
 \* the id a rumor is stored under: recomputed from its content, unless the (fixed) defect of trusting a pre-set id is on
 StoreKey(m) == IF "RumorIdTrusted" \in Dev /\ m.preset # "" THEN m.preset ELSE m.id
@@ -414,7 +421,7 @@ Process(cs, c, e, nm, first) ==
 (* Packing / unpacking one client's state                                   *)
 
 CS(c) == [g |-> cl[c], proc |-> proc[c], msgs |-> msgs[c], q |-> snapq[c], notif |-> <<>>, out |-> <<>>,
-          hyd |-> hyd[c], sql |-> c \in Sql]
+          hyd |-> hyd[c], sql |-> c \in Sql, syncfail |-> {}]
 
 \* hydration of the snapshot queue from storage (persistent backends, first touch after restart)
 Persistent(c) == c \in Sql
@@ -445,7 +452,7 @@ InitState == [ ginfo |-> [g \in Groups |-> NoGInfo],
                wl    |-> <<>>,
                welc  |-> [c \in Clients |-> <<>>],
                pwelc |-> [c \in Clients |-> <<>>],
-               hist  |-> [mergedNoSnap |-> {}, lastRes |-> "", notifs |-> <<>>, late |-> {}, tried |-> {}, q |-> FALSE, aheadOfRefs |-> {}, lostTs |-> {}, ptrStale |-> {}, wreset |-> {}] ]
+               hist  |-> [mergedNoSnap |-> {}, lastRes |-> "", notifs |-> <<>>, late |-> {}, tried |-> {}, q |-> FALSE, aheadOfRefs |-> {}, lostTs |-> {}, ptrStale |-> {}, wreset |-> {}, syncFail |-> {}] ]
 
 Init ==
     /\ ginfo = InitState.ginfo
@@ -703,6 +710,7 @@ Deliver(c, e, nm) ==
            /\ hist' = [hist EXCEPT !.lastRes = r.res, !.notifs = r.cs.notif,
                                    !.tried = @ \cup {<<c, e>>},
                                    !.late = IF <<c, e>> \notin hist.tried /\ OutsideWindow(c, e) THEN @ \cup {<<c, e>>} ELSE @,
+                                   !.syncFail = @ \cup {<<c, gg>> : gg \in r.cs.syncfail},
                                    !.ptrStale = IF r.cs.notif # <<>> THEN @ \cup {<<c, g0>>}
                                                 ELSE IF r.cs.g[g0].rec.last = ExpectedLastCS(r.cs, g0) THEN @ \ {<<c, g0>>}
                                                 ELSE @,
@@ -939,6 +947,8 @@ C08_Mirror == \A c \in Clients, g \in Groups :
                     \/ /\ cl[c][g].rec.epoch = EpochOf(g, cl[c][g].chain)
                        /\ cl[c][g].rec.data = GS(g, cl[c][g].chain)
                     \/ "WelcomeOverwritesActiveGroup" \in Dev /\ <<c, g>> \in hist.wreset
+                    \/ /\ "SyncFailsAfterMerge" \in Dev /\ <<c, g>> \in hist.syncFail
+                       /\ PrintT(<<"KNOWN-FINDING", "C08", "SyncFailsAfterMerge", c, g>>)
 
 \* --- C16: invitations ---
 \* an Active group record comes from creating the group or accepting a welcome for it
